@@ -525,6 +525,11 @@ def r18_4(ctx, run, rule='R18.4'):
                 n_cmp += 1
                 run.violation(rule, p, 'comparator[f64::total_cmp]', 'total_cmp orders -0.0 before +0.0 and distinguishes NaN payloads: numbers that denote the same real value compare unequal',
                               f"{t.get('file')}:{t.get('line')}")
+            elif called(nm, 'PartialOrd::partial_cmp') and 'f64' in full and 'OrderedFloat' not in full and partial_cmp_none_handled(b, bb, t):
+                # `if let Some(o) = a.partial_cmp(&b)`: NaN (None) is left to other code, -0.0 == +0.0 holds for partial_cmp
+                n_cmp += 1
+                run.proved(rule, p, 'comparator[partial_cmp/Some]', 'partial_cmp is used only through its Some case; the None (NaN) case falls through to the NaN-aware code',
+                           f"{t.get('file')}:{t.get('line')}")
             elif called(nm, 'f64::to_bits') or (called(nm, 'PartialOrd::partial_cmp', 'PartialEq::eq', 'PartialOrd::lt', 'PartialOrd::le') and 'f64' in full and 'OrderedFloat' not in full):
                 n_cmp += 1
                 run.violation(rule, p, f'comparator[{canon(nm).split("::")[-1]}]', 'floats are compared by a primitive that is not a total order with NaN == NaN and -0.0 == +0.0',
@@ -556,13 +561,54 @@ def r18_4(ctx, run, rule='R18.4'):
         # Int64 vs UInt64: negative is Less, otherwise compared as u64 after a value-preserving cast
         for (l, r), qs in table.items():
             if {l, r} == {'Int64', 'UInt64'}:
+                from panics import norm, norm_conds
                 for q in qs:
+                    pf = PathFacts(norm_conds(q.conds))
+                    if pf.infeasible():
+                        continue
                     casts = [s for s in subterms(q.ret) if s[0] == 'cast' and s[1] == 'IntToInt']
-                    neg = [c for c in q.conds if c[0][0] == 'bin' and c[0][1] == 'Lt' and const_of(c[0][3]) == 0]
                     if casts:
-                        ok = any(c[2] is False for c in neg)
+                        # the signed operand may be reinterpreted as u64 only where it is known to be >= 0
+                        ok = True
+                        for cst in casts:
+                            rg_ = pf.range_of_term(norm(cst[2]))
+                            if rg_.empty() or rg_.lo() < 0:
+                                ok = False
                         (run.proved if ok else run.violation)(rule, b.path, f'cross[{l},{r}]/cast', 'i64 -> u64 cast only for non-negative values' if ok else
                                                                'an i64 is cast to u64 for comparison without excluding negative values', f'{b.file}:{b.line}')
+                    # a negative signed operand is below every unsigned one: the constant outcome on that path is fixed
+                    for c in q.conds:
+                        t = c[0]
+                        if t[0] == 'bin' and t[1] in ('Lt', 'Le', 'Gt', 'Ge') and (const_of(t[3]) == 0 or const_of(t[2]) == 0):
+                            atom = t[2] if const_of(t[3]) == 0 else t[3]
+                            rg_ = pf.range_of_term(norm(atom))
+                            if not rg_.empty() and rg_.hi() < 0:
+                                want = 'Less' if l == 'Int64' else 'Greater'
+                                got = deref_all(q.ret)
+                                gv = got[1][2] if agg_variant(got) and got[1][1].endswith('cmp::Ordering') else None
+                                if gv is not None:
+                                    (run.proved if gv == want else run.violation)(rule, b.path, f'cross[{l},{r}]/negative', f'negative signed operand -> {want}' if gv == want else
+                                                                                   f'when the Int64 operand is negative the result is {gv}, but a negative number is below every unsigned one: it must be {want}', f'{b.file}:{b.line}')
+                            break
+
+
+def partial_cmp_none_handled(body, bb, t):
+    """the Option returned by this partial_cmp call is inspected by a discriminant read / switch (match, if let), not
+    handed to unwrap / expect / unwrap_or*"""
+    dest = t['dest']['local']
+    from mir import defs
+    for blk in body.blocks:
+        tt = blk['term']
+        if tt['k'] == 'call' and called(callee_name(tt), 'Option::unwrap', 'Option::expect', 'Option::unwrap_or', 'Option::unwrap_or_else', 'Option::unwrap_or_default',
+                                         'Option::map_or', 'Option::is_some', 'Option::is_none'):
+            for a in tt['args']:
+                if a['k'] in ('copy', 'move') and a['place']['local'] == dest:
+                    return False
+    for blk in body.blocks:
+        for st in blk['stmts']:
+            if st['k'] == 'assign' and st['rv']['k'] == 'discr' and st['rv']['place']['local'] == dest:
+                return True
+    return False
 
 
 def operand_ty(body, o):
